@@ -63,7 +63,7 @@ REJECT_LABELS = {"syntax", "type", "name", "index", "unresolvable", "malformed",
 
 
 def plan(tier, seed):
-    return [{"cmd": c, "part": i, "parts": 5} for c in ("path", "pointer", "patch") for i in range(5)] + [{"cmd": c, "part": -1, "parts": 5, "encodings": True} for c in ("path", "pointer", "patch")] + [{"cmd": c, "part": -2, "parts": 5, "scale": True} for c in ("path", "pointer", "patch")]
+    return [{"cmd": c, "part": i, "parts": 5} for c in ("path", "pointer", "patch") for i in range(5)] + [{"cmd": c, "part": -1, "parts": 5, "encodings": True} for c in ("path", "pointer", "patch")] + [{"cmd": c, "part": -2, "parts": 5, "scale": True} for c in ("path", "pointer", "patch")] + [{"cmd": c, "part": -3, "parts": 5, "hyphens": True} for c in ("path", "pointer", "patch")]
 
 
 class Files:
@@ -90,7 +90,8 @@ def run_cli_inprocess(argv, stdin_text):
 
     old = sys.argv, sys.stdin, sys.stdout, sys.stderr
     sys.argv = ["json"] + argv
-    sys.stdin = io.StringIO(stdin_text if stdin_text is not None else "")
+    # (a text stream with a .buffer, like the real standard input: `-f -` / `patch -` read sys.stdin.buffer)
+    sys.stdin = io.TextIOWrapper(io.BytesIO((stdin_text if stdin_text is not None else "").encode("utf-8", "surrogatepass")), encoding="utf-8", errors="surrogatepass")
     sys.stdout = io.StringIO()
     sys.stderr = io.StringIO()
     status, exc = 0, None
@@ -147,6 +148,10 @@ def library_outcome(cmd, expr, doc_text, opts):
 STRING_ROOT_DOCS = ['"[1, 2]"', '"12"', '"a[0]"', '"hello"', '"true"', '"{\\"a\\": 1}"', '""', "12", "null", "[]"]
 
 
+def r_choice_out(opts):
+    return "--output" if opts.get("pretty") else "-o"
+
+
 def check(ctx, files, cmd, label, expr, doc_ok, opts, use_subprocess, repo, doc_text=None):
     ctx.evaluation()
     if doc_text is None:
@@ -161,7 +166,7 @@ def check(ctx, files, cmd, label, expr, doc_ok, opts, use_subprocess, repo, doc_
     argv.append(cmd)
     if cmd == "patch":
         expr_text = expr if isinstance(expr, str) else json.dumps(expr)
-        argv.append(files.write(expr_text, opts.get("patch_encoding", "utf-8")))
+        argv.append("-" if opts.get("dash_patch") else files.write(expr_text, opts.get("patch_encoding", "utf-8")))
     else:
         expr_text = expr
         if opts["expr_file"]:
@@ -169,14 +174,21 @@ def check(ctx, files, cmd, label, expr, doc_ok, opts, use_subprocess, repo, doc_
         else:
             argv += ["-q" if cmd == "path" else "-p", expr]
     stdin_text = None
-    if opts["doc_stdin"]:
+    if opts.get("dash_patch"):
+        stdin_text = expr_text          # the patch comes from standard input (`patch -`), the document from a file
+        argv += ["-f", files.write(doc_text, opts.get("doc_encoding") or "utf-8")]
+    elif opts["doc_stdin"]:
         stdin_text = doc_text
+        if opts.get("dash_doc"):
+            argv += ["-f", "-"]         # the documented explicit spelling of "read the document from standard input"
     else:
         argv += ["-f", files.write(doc_text, opts.get("doc_encoding") or "utf-8")]
     outfile = None
     if opts["out_file"]:
         outfile = files.out()
         argv += ["-o", outfile]
+    elif opts.get("dash_out"):
+        argv += [r_choice_out(opts), "-"]   # the documented explicit spelling of "write to standard output"
     if cmd == "path" and opts["no_type_checks"]:
         argv.append("--no-type-checks")
     if cmd in ("pointer", "patch") and opts["uri_decode"]:
@@ -281,6 +293,24 @@ def run(spec, ctx):
     sub_share = 0.05 if ctx.tier == "quick" else 0.25
     n = 0
     try:
+        if spec.get("hyphens"):
+            # the documented hyphen forms: `-f -`, `-o -` / `--output -`, `patch -`
+            exprs_ = {"path": [("valid", "$.a[*]"), ("syntax", "$.a[")], "pointer": [("valid", "/a/2/b"), ("unresolvable", "/zz")], "patch": [("valid", [{"op": "add", "path": "/new", "value": 1}]), ("failing", [{"op": "remove", "path": "/zz"}])]}[cmd]
+            for label, expr in exprs_:
+                for doc_ok in (True, False):
+                    for pretty in (False, True):
+                        for dash_out in (False, True):
+                            for how in ("doc-file", "doc-dash", "doc-stdin") + (("patch-dash",) if cmd == "patch" else ()):
+                                opts = {"debug": False, "pretty": pretty, "no_unicode_escape": False, "expr_file": False, "doc_stdin": how in ("doc-dash", "doc-stdin"), "out_file": False, "no_type_checks": False, "uri_decode": False,
+                                        "dash_out": dash_out, "dash_doc": how == "doc-dash", "dash_patch": how == "patch-dash"}
+                                for sub in (False, True):
+                                    check(ctx, files, cmd, label, expr, doc_ok, opts, sub, REPO)
+                                    ctx.cell("hyphen_forms", "%s %s out=%s" % (cmd, how, "-" if dash_out else "default"))
+                                    n += 1
+                shutil.rmtree(tmp, ignore_errors=True)
+                files = Files(tmp)
+            ctx.count("invocations", n)
+            return
         if spec.get("scale"):
             # documents and results of 1 KiB .. 2 MiB (output sizes on either side of 4 KiB, 64 KiB, 1 MiB buffers)
             for n_items in (20, 80, 1200, 1400, 6000, 24000):
